@@ -377,6 +377,15 @@ def run_history(ops, Pm):
     W = World(Pm)
     fails = []
     trace = []
+    # a shared class constant starts every history as the library defines it: an earlier history may have inserted a
+    # derivative under a new key (permitted on read-only objects), which would make the outcome of this history
+    # depend on the ones before it (thorough run: two irreproducible alarms)
+    for op in ops:
+        if op[0] == 'const':
+            cls, name = op[1].split('.')
+            c = getattr(getattr(Pm, cls), name, None)
+            if c is not None and c._derivs_:
+                c.delete_derivs(override=True)
     for step, op in enumerate(ops):
         W.step = step
         kind = op[0]
